@@ -19,6 +19,7 @@ RULE = (
     "dense(M)[win] * outer(w_rows, w_cols) with reciprocals when divisive (explicit, or by default for "
     "KR/VC/VC_SQRT), NaN wherever either weight is NaN; rtol 1e-12. Non-trivial = row range != column range, >=1 "
     "stored pixel in the window and >=1 NaN weight in range. Distinct by sha1 of the canonical case."
+    ' Pixel output is also requested with ignore_index=False (rows labelled with their own row numbers; values must still belong to their rows).'
     ' Weight columns may be written after creation through cooler.create.append (whole columns, or chunked=True with generated cuts).'
 )
 ASSUMPTIONS = ["weights are positive finite floats or NaN (what balancing writes)"]
@@ -79,6 +80,8 @@ def cases(draw, max_chroms=3, max_bins=5):
     return {"part": "balanced", "bt": bt, "symmetric": symmetric, "rows": rows, "weights": weights,
             "win": [i0, i1, j0, j1], "out": draw(st.sampled_from(["dense", "sparse", "pixels", "pixels-join"])),
             "balance": balance, "divisive": draw(st.sampled_from([None, None, True, False])),
+            # pixel output labelled with the pixels' own row numbers instead of 0..k-1 (only drawn for the pixel forms)
+            "keep_index": draw(st.booleans()),
             "chunksize": draw(st.sampled_from([1, 3, 10**7])), "via": via,
             # history: the Cooler object exists (and has been queried) before the weight columns are written / replaced
             # (True: raw HDF5 write as balance_cooler(store=True) does; "append*": through cooler.create.append, whole
@@ -130,8 +133,10 @@ def check_balanced(case, ctx: Ctx):
             call("create", create_from_model, path, bt, rows, symmetric, bins_extra=W, h5opts={"compression": None})
             clr = cooler.Cooler(path)
         out = case["out"]
+        keep_index = bool(case.get("keep_index")) and out.startswith("pixels")
         sel = clr.matrix(balance=balance, sparse=(out == "sparse"), as_pixels=out.startswith("pixels"),
-                         join=(out == "pixels-join"), divisive_weights=case["divisive"], chunksize=case["chunksize"])
+                         join=(out == "pixels-join"), divisive_weights=case["divisive"], chunksize=case["chunksize"],
+                         **({"ignore_index": False} if keep_index else {}))
         if name not in W:
             must_raise(f"balanced read with missing weight column {name!r} (out={out})", lambda: sel[i0:i1, j0:j1])
             ctx.record(case, True, ["missing-column", "out=" + out])
@@ -172,6 +177,10 @@ def check_balanced(case, ctx: Ctx):
                   lambda: f"sparse balanced values differ: got {res.data.tolist()[:6]} want {exp.tolist()[:6]}")
         else:
             exp = [(r[0], r[1], r[2]) for r in rows if i0 <= r[0] < i1 and j0 <= r[1] < j1]
+            if keep_index:
+                # the window's stored records in storage order, labelled with their row numbers in the pixel table
+                ids = [t for t, r in enumerate(rows) if i0 <= r[0] < i1 and j0 <= r[1] < j1]
+                check(res.index.tolist() == ids, lambda: f"ignore_index=False: row labels {res.index.tolist()[:8]}, the stored row numbers are {ids[:8]}")
             check(len(res) == len(exp) and res["count"].tolist() == [e[2] for e in exp], "pixel rows differ")
             wfull = 1.0 / w if divisive else w
             expb = np.array([e[2] * wfull[e[0]] * wfull[e[1]] for e in exp], dtype=float)
@@ -190,7 +199,7 @@ def check_balanced(case, ctx: Ctx):
     nt = (i0, i1) != (j0, j1) and has and nanw
     ctx.record(case, nt, ["balanced", "out=" + out, "name=" + name, "divisive=" + str(case["divisive"]),
                           "same-range" if (i0, i1) == (j0, j1) else "diff-range-same-len" if i1 - i0 == j1 - j0 else "diff-len",
-                          "sym" if symmetric else "square", "via=" + ("fetch" if regions is not None else "slice"), "weights=" + str(case.get("late_weights") or "at-creation")])
+                          "sym" if symmetric else "square", "row-labels=" + ("own" if keep_index else "fresh"), "via=" + ("fetch" if regions is not None else "slice"), "weights=" + str(case.get("late_weights") or "at-creation")])
 
 
 CHECKS = {"balanced": check_balanced}
